@@ -95,7 +95,10 @@ def check_text(mode, pats, ex, fs, res):
     except sre_aut.Unsupported:
         res.n['fallback_cases'] += 1
         return
-    al = [c for c in alphabet.minterms(impl.atoms(i1 + e1 + i2 + e2), True) if c < 128]
+    # Latin-1 code points and the bytes of the same value; with case-insensitive matching only ASCII (cased non-ASCII
+    # characters fold in str mode and cannot in bytes mode - outside the statement)
+    ic = ('I' in fs or 'W' in fs) and 'C' not in fs
+    al = [c for c in alphabet.minterms(impl.atoms(i1 + e1 + i2 + e2), True) if c < (128 if ic else 256)]
     a1 = impl.automaton(i1, e1, al)
     a2 = impl.automaton(i2, e2, al)
 
@@ -320,6 +323,13 @@ def check_raw(first, maxlen, res):
 
 # ---------------------------------------------------------------- planning
 
+# brackets emptied by reversed ranges (the library substitutes a full-range class whose upper end differs between str and
+# bytes), Latin-1 members, and `!(` under NEGATE: forms the generated menus do not contain
+ODD_PATS = ['[z-a]', '[!z-a]', '[^z-a]', 'x[!b-a]*', '[!z-ab-a]', '[z-a\xe9]', '[!z-a\xe9]', '[\xe9-\xff]', '[!\xe9]', '\xe9*',
+            '[[:alpha:]\xe9]', '[![:alpha:]]', '@([z-a]|a)', '@([!z-a])', '!([z-a])', '!(a)', '!(a|b)', '!(a)|!c', '-(a)', '!\\(a)',
+            '[!z-a]/[z-a]', '**/[!z-a]', '?', '[!\x80-\xff]', '[\x00-\x7f]', '+([!z-a])']
+ODD_FN_FLAGS = ['E', 'DE', 'NE', 'NDE', 'NME', 'NES', 'NEA', '']
+ODD_GL_FLAGS = ['GE', 'GDE', 'GNE', 'GNDE', 'GNME', 'GNES', 'GNEA', 'GEO']
 TEXT_FN_FLAGS = ['E', 'DE', 'EI', 'ER', 'EW', '', 'DEC']
 TEXT_GL_FLAGS = ['GE', 'GDE', 'GXE', 'GEZ', 'GEO', 'GEW', 'GLEI', 'GER']
 
@@ -339,6 +349,7 @@ def plan(tier, seed):
         for sh in range(8):
             chunks.append(('lists', mode, nlist, sh, 8))
     chunks.append(('mixed',))
+    chunks.append(('odd',))
     chunks.append(('walk',))
     for c1 in RAW_ALPHA:
         chunks.append(('raw', c1, 4 if tier == 'quick' else 5))
@@ -415,6 +426,14 @@ def run_chunk(chunk):
         res.samples.append({'list': pool[:2]})
     elif kind == 'raw':
         check_raw(chunk[1], chunk[2], res)
+    elif kind == 'odd':
+        for p in ODD_PATS:
+            for mode, fsets in (('fn', ODD_FN_FLAGS), ('glob', ODD_GL_FLAGS)):
+                if mode == 'fn' and '/' in p:
+                    continue
+                for fs in fsets:
+                    check_text(mode, p, None, fs, res)
+        res.samples.append({'odd': ODD_PATS[:4]})
     elif kind == 'mixed':
         check_mixed(res)
         check_negateall(res)
